@@ -130,7 +130,7 @@ def run_policy_scenario(pcfg: dict, events: list[dict], *, entry: str = "Policy"
             call = dict(on_metric=env.on_metric, on_log=env.on_log,
                         operation="op" if pcfg["rc"]["opname"] else None,
                         abort_if=env.abort_if if pcfg["rc"]["abort"] else None)
-        if hooks:
+        if hooks or pcfg["rc"].get("hooks"):
             call.update(on_attempt_start=env.astart, on_attempt_end=env.aend)
         pol = (rp.AsyncPolicy if is_async else rp.Policy)(retry=retry, circuit_breaker=env.breaker)
         for ci, callev in enumerate(split_calls(events)):
